@@ -368,3 +368,58 @@ func VerifC19StreamFailures() {
 	verifAssert(got == want, "C19/exit-0-although-a-result-was-not-printed"+label)
 	verifCover("C19/stream-failures/end")
 }
+
+// c19FailingReader delivers its text and then fails (a directory given as a file, a disk error, a closed pipe).
+type c19FailingReader struct {
+	data string
+	pos  int
+}
+
+func (r *c19FailingReader) Read(p []byte) (int, error) {
+	if r.pos < len(r.data) && len(p) > 0 {
+		n := copy(p, r.data[r.pos:])
+		r.pos += n
+		return n, nil
+	}
+	return 0, errors.New("read: input/output error")
+}
+
+// VerifC19ReadErrors: an input that cannot be read to its end is a failure for every decoder the engine executes
+// (yaml, json over the reader stub, csv, tsv, xml, uri, base64): reading documents until the decoder stops ends with
+// an error that is NOT the clean end of input - whether the failure comes at once, after a complete document or in
+// the middle of one.
+func VerifC19ReadErrors() {
+	type fm struct {
+		name   string
+		texts  []string
+		make   func() Decoder
+	}
+	verifXMLReal = true
+	fms := []fm{
+		{"yaml", []string{"", "a: 1\n", "a: [1,"}, func() Decoder { return NewYamlDecoder(NewDefaultYamlPreferences()) }},
+		{"json", []string{"", "{\"a\":1}", "{\"a\":"}, func() Decoder { return NewJSONDecoder() }},
+		{"csv", []string{"", "a,b\n1,2\n", "a,b\n1,"}, func() Decoder { return NewCSVObjectDecoder(ConfiguredCsvPreferences) }},
+		{"tsv", []string{"", "a\tb\n1\t2\n"}, func() Decoder { return NewCSVObjectDecoder(ConfiguredTsvPreferences) }},
+		{"xml", []string{"", "<a>1</a>", "<a>1"}, func() Decoder { return NewXMLDecoder(NewDefaultXmlPreferences()) }},
+		{"uri", []string{"", "x%20y"}, func() Decoder { return NewUriDecoder() }},
+		{"base64", []string{"", "YQ==", "YQ"}, func() Decoder { return NewBase64Decoder() }},
+	}
+	f := fms[verifChoice("format", len(fms))]
+	text := f.texts[verifChoice("text", 3)%len(f.texts)]
+	dec := f.make()
+	label := " format=" + f.name
+	if err := dec.Init(&c19FailingReader{data: text}); err != nil {
+		verifAssert(!errors.Is(err, io.EOF), "C19/failed-read-reported-as-end-of-input"+label)
+		verifCover("C19/read-errors/end")
+		return
+	}
+	var last error
+	for i := 0; i < 4 && last == nil; i++ {
+		_, last = dec.Decode()
+	}
+	verifAssert(last != nil, "C19/decoder-delivers-documents-without-end-from-a-failing-input"+label)
+	if last != nil {
+		verifAssert(!errors.Is(last, io.EOF), "C19/failed-read-reported-as-end-of-input"+label)
+	}
+	verifCover("C19/read-errors/end")
+}
